@@ -16,7 +16,7 @@ RULE = ("process_maze_rasterized_input_target(maze, opts) and RasterizedMazeData
         "an oracle written from the statement (input = maze picture with the path hidden and endpoints kept; target = wall except "
         "the solution pixels, endpoints coloured or open; optional isolated-pixel removal; optional 2x extension + 1-pixel wall "
         "frame) for solved mazes from all generators incl. percolation mazes with isolated cells and harness-built structures, grid "
-        "2..10, solutions of length 1, 2 and long, all 8 option combinations; batches with None, permutations and repeats. "
+        "2..10 (a quarter of the harness-built ones oblong, 1..10 columns), option combinations in varying order on one maze object, solutions of length 1, 2 and long, all 8 option combinations; batches with None, permutations and repeats. "
         "non-trivial & distinct = distinct (connection structure, solution, options) images with a solution of >= 2 cells")
 ASSUMPTIONS = ["isolated-pixel removal is applied before pixel extension (the order the option names suggest)",
                "where a coloured start/end pixel takes part in the 'no open 4-neighbour' rule the statement is ambiguous; either reading is accepted at that pixel"]
@@ -24,7 +24,7 @@ NSHARDS = {"quick": 16, "thorough": 16}
 THRESHOLDS = {"quick": {**{f"c17:opts:{a}{b}{c}": 200 for a in "TF" for b in "TF" for c in "TF"}, "c17:images": 3000,
                         "c17:one-cell-solution": 50, "c17:two-cell-solution": 50, "c17:isolated-cells-present": 200,
                         "c17:isolated-pixel-removed": 200, "c17:dataset-items": 300, "c17:batches": 60, "c17:batch-none": 10,
-                        "c17:batch-repeats": 10, "c17:from-generators": 300}}
+                        "c17:batch-repeats": 10, "c17:from-generators": 300, "c17:oblong": 40}}
 THRESHOLDS["thorough"] = dict(THRESHOLDS["quick"])
 ANCHORS = ["maze_dataset.dataset.rasterized:process_maze_rasterized_input_target", "maze_dataset.dataset.rasterized:_extend_pixels",
            "maze_dataset.maze.lattice_maze:_remove_isolated_cells", "maze_dataset.dataset.rasterized:RasterizedMazeDataset.__getitem__",
@@ -87,18 +87,25 @@ def run(ctx):
             continue
         rng = ctx.sub_rng("h", j)
         g = int(rng.integers(2, 11))
+        g2 = g
+        if j % 4 == 3:
+            g2 = int(rng.integers(1, 11))  # oblong (a solved maze need not be square)
+            if g2 != g:
+                ctx.tally("c17:oblong")
         fam = ["tree", "perc2", "perc4", "perc6", "cyc3", "empty", "full", "serpentine"][j % 8]
-        fam, cl = ref.random_structure(g, g, rng, fam)
+        fam, cl = ref.random_structure(g, g2, rng, fam)
         gr = Graph(cl)
-        cells = ref.all_cells(g, g)
+        cells = ref.all_cells(g, g2)
         s = cells[int(rng.integers(len(cells)))]
         comp = sorted(gr.component_of(s))
         mode = j % 4
         e = s if mode == 0 else (gr.adj[s][0] if (mode == 1 and gr.adj[s]) else comp[int(rng.integers(len(comp)))])
         sol = gr.shortest_path(s, e, rng)
         maze = lib.solved(cl, sol)
-        case = dict(kind="harness", family=fam, grid_n=g, cl=cl, solution=sol)
-        check_maze(ctx, maze, cl, sol, case, OPTS)
+        case = dict(kind="harness", family=fam, grid_n=g, shape=(g, g2), cl=cl, solution=sol)
+        # the 8 option combinations in a per-case order (the same maze object is rasterized 8 times)
+        order = [OPTS[int(i)] for i in rng.permutation(8)] if j % 2 else OPTS
+        check_maze(ctx, maze, cl, sol, case, order)
         if j < 2:
             ctx.sample(dict(kind="harness", family=fam, grid_n=g, solution=sol))
     # library-generated datasets, items and batches
